@@ -258,3 +258,102 @@ func VH_C05_for() {
 	vhAssert(vhLogIs(want), "init once; condition before every iteration; body; post after every completed or continued iteration; break leaves the loop")
 	vhReach("end")
 }
+
+// break / continue / goto leaving upn nested frames: control continues in the frame upn levels up, at the
+// target statement (whose index is filled in after the jump was compiled)
+func VH_C05_jumpOut() {
+	c := vhComp()
+	upn := vhPick("frames to leave", 8)
+	const depth = 9
+	envs := make([]*Env, depth)
+	hitEnv, hitIdx := -1, -1
+	for j := 0; j < depth; j++ {
+		j := j
+		envs[j] = &Env{}
+		envs[j].Code = make([]Stmt, 3)
+		for i := 0; i < 3; i++ {
+			i := i
+			envs[j].Code[i] = func(env *Env) (Stmt, *Env) {
+				hitEnv, hitIdx = j, i
+				return nil, env
+			}
+		}
+	}
+	for j := 0; j+1 < depth; j++ {
+		envs[j].Outer = envs[j+1]
+	}
+	target := -1
+	n := len(c.Code.List)
+	cerr := false
+	func() {
+		defer func() {
+			if recover() != nil {
+				cerr = true
+			}
+		}()
+		c.jumpOut(upn, &target)
+	}()
+	vhAssert(!cerr && len(c.Code.List) == n+1, "compiles to one statement")
+	if cerr || len(c.Code.List) != n+1 {
+		return
+	}
+	target = vhPick("target statement", 3) // the jump target becomes known only later
+	s, e := c.Code.List[n](envs[0])
+	vhAssert(e == envs[upn], "control continues in the frame that many levels up")
+	vhAssert(e.IP == target, "at the target statement")
+	s(e)
+	vhAssert(hitEnv == upn && hitIdx == target, "the statement returned is the target statement of that frame")
+	vhReach("end")
+}
+
+// goto: the label is searched in the enclosing blocks up to and including the function body
+func VH_C05_gotoLabel() {
+	body := vhComp()
+	body.Func = &FuncInfo{}
+	target := 2
+	body.Labels = map[string]*int{"again": &target}
+	nest := vhPick("blocks between the goto and the function body", 3)
+	c := body
+	for i := 0; i < nest; i++ {
+		c = &Comp{CompGlobals: body.CompGlobals, Outer: c, UpCost: 1}
+	}
+	cerr := false
+	func() {
+		defer func() {
+			if recover() != nil {
+				cerr = true
+			}
+		}()
+		c.Goto(&ast.BranchStmt{Tok: token.GOTO, Label: &ast.Ident{Name: "again"}})
+	}()
+	vhAssert(!cerr, "a goto to a label declared in the function body compiles")
+	if cerr {
+		return
+	}
+	vhAssert(len(c.Code.List) == 1, "one jump statement is emitted")
+	envs := make([]*Env, 4)
+	for j := range envs {
+		envs[j] = &Env{}
+		envs[j].Code = make([]Stmt, 3)
+	}
+	for j := 0; j+1 < len(envs); j++ {
+		envs[j].Outer = envs[j+1]
+	}
+	_, e := c.Code.List[0](envs[0])
+	vhAssert(e == envs[nest] && e.IP == 2, "the jump lands in the function body's frame at the label")
+	// a label of an enclosing *function* is not visible
+	inner := vhComp()
+	inner.Func = &FuncInfo{}
+	inner.Outer = body
+	failed := false
+	func() {
+		defer func() {
+			if recover() != nil {
+				failed = true
+			}
+		}()
+		inner.Goto(&ast.BranchStmt{Tok: token.GOTO, Label: &ast.Ident{Name: "again"}})
+	}()
+	vhAssert(failed, "goto does not cross a function boundary")
+	vhReach("end")
+}
